@@ -75,7 +75,7 @@ func isCloneCall(e ast.Expr) bool {
 }
 
 func isValueType(t string) bool {
-	return t == "Value" || t == "valueNode" || t == "interface{}" || t == "any"
+	return t == "Value" || t == valueNodeType || t == "interface{}" || t == "any"
 }
 
 // ---------------------------------------------------------------------------------------------- provenance classes
@@ -272,7 +272,7 @@ func (c ctx) classAt(e ast.Expr, pos token.Pos) string {
 				return "nonvalue"
 			}
 		}
-		if id, ok := x.Fun.(*ast.Ident); ok && len(x.Args) == 1 && (id.Name == "Value" || id.Name == "valueNode") {
+		if id, ok := x.Fun.(*ast.Ident); ok && len(x.Args) == 1 && (id.Name == "Value" || id.Name == valueNodeType) {
 			return c.classAt(x.Args[0], pos) // conversion
 		}
 		if ts := c.callees(x); len(ts) > 0 {
@@ -287,13 +287,13 @@ func (c ctx) classAt(e ast.Expr, pos token.Pos) string {
 		}
 		return "none"
 	case *ast.CompositeLit:
-		if t, ok := x.Type.(*ast.Ident); !ok || t.Name != "valueNode" {
+		if t, ok := x.Type.(*ast.Ident); !ok || t.Name != valueNodeType {
 			return "none"
 		}
 		var data ast.Expr
 		for i, el := range x.Elts {
 			if kv, ok := el.(*ast.KeyValueExpr); ok {
-				if k, ok := kv.Key.(*ast.Ident); ok && k.Name == "data" {
+				if k, ok := kv.Key.(*ast.Ident); ok && k.Name == dataField {
 					data = kv.Value
 				}
 			} else if i == 0 {
@@ -327,7 +327,7 @@ func (c ctx) classAt(e ast.Expr, pos token.Pos) string {
 	case *ast.IndexExpr:
 		return "internal"
 	case *ast.SelectorExpr:
-		if x.Sel.Name == "data" {
+		if x.Sel.Name == dataField {
 			return c.classAt(x.X, pos)
 		}
 		return "nonvalue" // valueNode.data is the only field of the package that holds a client value
@@ -376,7 +376,7 @@ func (c ctx) classAt(e ast.Expr, pos token.Pos) string {
 				return true
 			}
 			for i, l := range as.Lhs {
-				if sel, ok := l.(*ast.SelectorExpr); ok && sel.Sel.Name == "data" && i < len(as.Rhs) {
+				if sel, ok := l.(*ast.SelectorExpr); ok && sel.Sel.Name == dataField && i < len(as.Rhs) {
 					if id, ok := sel.X.(*ast.Ident); ok && id.Name == x.Name && (last == nil || as.Pos() > last.Pos()) {
 						last, lastRhs = as, as.Rhs[i]
 					}
@@ -403,13 +403,13 @@ func baseVar(e ast.Expr) string {
 	case *ast.Ident:
 		return x.Name
 	case *ast.SelectorExpr:
-		if x.Sel.Name == "data" {
+		if x.Sel.Name == dataField {
 			return baseVar(x.X)
 		}
 	case *ast.CompositeLit:
 		for i, el := range x.Elts {
 			if kv, ok := el.(*ast.KeyValueExpr); ok {
-				if k, ok := kv.Key.(*ast.Ident); ok && k.Name == "data" {
+				if k, ok := kv.Key.(*ast.Ident); ok && k.Name == dataField {
 					return baseVar(kv.Value)
 				}
 			} else if i == 0 {
@@ -527,6 +527,32 @@ func lruNewArg(e ast.Expr) (ast.Expr, bool) {
 	return c.Args[0], true
 }
 
+// the cached-value struct of the package and its client-value field, found by STRUCTURE (a struct type with a field of
+// type Value), not by name: unexported names may change
+var (
+	valueNodeType = "valueNode"
+	dataField     = "data"
+)
+
+// build constraints: the harness is built with the `verif` tag, so a file that excludes it is not part of the package
+func excludedByTags(af *ast.File) bool {
+	for _, cg := range af.Comments {
+		if cg.Pos() > af.Package {
+			break
+		}
+		for _, c := range cg.List {
+			t := strings.TrimSpace(strings.TrimPrefix(c.Text, "//"))
+			if strings.HasPrefix(t, "go:build ") {
+				expr := strings.TrimSpace(strings.TrimPrefix(t, "go:build "))
+				if expr == "!verif" {
+					return true
+				}
+			}
+		}
+	}
+	return false
+}
+
 func main() {
 	repo := os.Getenv("VERIF_REPO")
 	if repo == "" {
@@ -541,13 +567,30 @@ func main() {
 	sort.Strings(files)
 	var order []*fnInfo
 	for _, f := range files {
-		if strings.HasSuffix(f, "_test.go") || strings.HasPrefix(filepath.Base(f), "verif_") {
+		if strings.HasSuffix(f, "_test.go") {
 			continue
 		}
-		af, err := parser.ParseFile(fset, f, nil, 0)
+		af, err := parser.ParseFile(fset, f, nil, parser.ParseComments)
 		if err != nil {
 			fmt.Fprintln(os.Stderr, "parse error:", err)
 			os.Exit(1)
+		}
+		if excludedByTags(af) {
+			continue
+		}
+		for _, d := range af.Decls { // the cached-value struct: the struct type with a field of type Value
+			if gd, ok := d.(*ast.GenDecl); ok && gd.Tok == token.TYPE {
+				for _, sp := range gd.Specs {
+					ts := sp.(*ast.TypeSpec)
+					if st, ok := ts.Type.(*ast.StructType); ok {
+						for _, fl := range st.Fields.List {
+							if id, ok := fl.Type.(*ast.Ident); ok && id.Name == "Value" && len(fl.Names) == 1 {
+								valueNodeType, dataField = ts.Name.Name, fl.Names[0].Name
+							}
+						}
+					}
+				}
+			}
 		}
 		for _, d := range af.Decls {
 			switch x := d.(type) {
